@@ -84,7 +84,7 @@ func (o wgOps) walk(root string, p wgPolicy) (string, int) {
 		if d == nil {
 			vs = append(vs, fmt.Sprintf("%s,-,-,%s", tok(path), e))
 		} else {
-			vs = append(vs, fmt.Sprintf("%s,%s,%d,%s", tok(path), tok(d.Name()), uint32(d.Type())&modeTypeBits, e))
+			vs = append(vs, fmt.Sprintf("%s,%s,%d,%s", tok(path), tok(d.Name()), uint32(d.Type()), e))
 		}
 		i := n
 		n++
@@ -143,7 +143,7 @@ func (o wgOps) readDirQ(p string) string {
 	des, err := o.readDir(p)
 	ts := make([]string, len(des))
 	for i, d := range des {
-		ts[i] = fmt.Sprintf("%s:%d", tok(d.Name()), uint32(d.Type())&modeTypeBits)
+		ts[i] = fmt.Sprintf("%s:%d", tok(d.Name()), uint32(d.Type()))
 	}
 	e := "nil"
 	if err != nil {
